@@ -116,7 +116,7 @@ PROTOCOL_FAULTS = {"StopIteration": StopIteration, "StopAsyncIteration": StopAsy
 # the constructors of Response / Strict / TwoArg cannot be called with one message: AttributeError, ValueError, TypeError
 FAULT_CLASSES = ["Exception", "KeyError", "OSError", "UnicodeEncodeError", "Custom", "Response", "Strict", "TwoArg",
                  "StopIteration", "StopAsyncIteration"]
-# ... and the ones `except Exception` does not catch (only used by streams that ask for them: `RunStream.base_faults`)
+# ... and the BaseExceptions that are no Exception (D42, repaired; only used by streams that ask for them: `RunStream.p_base_fault`)
 BASE_FAULT_CLASSES = ["GeneratorExit", "SystemExit", "KeyboardInterrupt"]
 
 
